@@ -74,7 +74,8 @@ DISPATCHER_OK = ["interrupt", "stop", "start", "setprio", "csignal", "ctrset", "
 
 
 @st.composite
-def scenario(draw, profile):
+def scenario(draw, profile, big=False):
+    """big=True (thorough tier): more processes (up to 20 for the queueing profile) and scripts of up to 40 ops."""
     weights = PROFILES[profile]
     want = OBJECTS[profile]
     env = {k: [] for k in ("res", "pool", "buf", "oq", "pq", "cond")}
@@ -124,6 +125,8 @@ def scenario(draw, profile):
             continue
         kinds += [k] * w
     lo, hi = NPROCS.get(profile, (1, 5))
+    if big:
+        hi = 20 if profile == "queueing" else hi + 4
     nprocs = draw(st.integers(lo, hi))
     pnames = ["p%d" % i for i in range(nprocs)]
 
@@ -273,6 +276,8 @@ def scenario(draw, profile):
         raise AssertionError(k)
 
     maxops = 14 if nprocs <= 6 else 6
+    if big:
+        maxops = 40 if nprocs <= 6 else 12
     for i in range(nprocs):
         start = draw(st.sampled_from(TIMES + (["never"] if "start" in weights else [])))
         lines.append("proc p%d prio %s start %s sprio %s" % (
